@@ -23,8 +23,24 @@ class KeyIndex:
         return self.idx[h]
 
 
-def alpha_doc(env, ki, base_ver):
-    """Abstract a root-ish envelope; returns None when its well-formedness is Unspecified by the schema."""
+def _numeric_versions(env):
+    """The same envelope with an integral-float version replaced by the integer it denotes (exactly)."""
+    try:
+        v = env["signed"]["version"]
+        if isinstance(v, float) and v == v and abs(v) != float("inf") and v == int(v):
+            e2 = dict(env, signed=dict(env["signed"], version=int(v)))
+            return e2
+    except Exception:  # noqa: BLE001
+        pass
+    return env
+
+
+def alpha_doc(env, ki, base_ver, numeric=False):
+    """Abstract a root-ish envelope; returns None when its well-formedness is Unspecified by the schema.
+    numeric=True: versions are abstracted by their numeric value (an integral float counts as that integer), for drivers that only
+    ask whether something was ACCEPTED that no reading of the version allows."""
+    if numeric:
+        env = _numeric_versions(env)
     verdict = twin_schema(env)
     if verdict not in (ACCEPT, REJECT):
         return None
@@ -63,17 +79,17 @@ def alpha_entries(env, ki):
     return entries, na, nj
 
 
-def alpha_call(trusted, offered, outcome):
+def alpha_call(trusted, offered, outcome, numeric=False):
     ki = KeyIndex()
     base = 0
     try:
-        base = trusted["signed"]["version"]
+        base = (_numeric_versions(trusted) if numeric else trusted)["signed"]["version"]
         if not isinstance(base, int) or isinstance(base, bool):
             base = 0
     except Exception:  # noqa: BLE001
         base = 0
-    t = alpha_doc(trusted, ki, base)
-    n = alpha_doc(offered, ki, base)
+    t = alpha_doc(trusted, ki, base, numeric)
+    n = alpha_doc(offered, ki, base, numeric)
     if t is None or n is None:
         return None
     entries, na, nj = alpha_entries(offered, ki) if n["wf"] == "ok" else ([], 0, 0)
@@ -243,3 +259,41 @@ def big_pairs(run, n, owner):
     # foreign hex keys get key indices too: keep within NK = 160 by dropping traces that exceed it (alpha_call already did)
     judge(run, traces, conc, owner, "large-root-pair", cfg="Trace_Root_big.cfg")
     run.extra["big_root_pairs"] = len(traces)
+
+
+def float_version_pairs(run, n, owner):
+    """Rare values: versions given as integral floats around and beyond 2^53 (where float arithmetic stops being exact), mixed with
+    integers.  Versions are abstracted by their exact numeric value; float versions are an unspecified class of the schema, so only an
+    ACCEPTANCE that the numeric reading forbids (anything but +1) is reported."""
+    fn = lib.cct("authentication").verify_root
+    keys = gamma.Keys(3, run.seed, offset=2600)
+    r = random.Random(run.seed * 61 + 37)
+    traces, conc = [], {}
+    pub = keys.pub
+    bases = [2 ** 53, 2 ** 53 + 2, 2 ** 53 + 4, 2 ** 54, 2 ** 54 + 4, 2 ** 60, 2 ** 63, 2 ** 64, 10 ** 22, 4, 2 ** 31]
+    for tid in range(1, n + 1):
+        b = bases[(tid - 1) % len(bases)]
+        delta = r.choice([0, 2, -2, 4, 3, -1, 1])
+        tv, ov = b, b + delta
+        tkind, okind = r.choice(["int", "float"]), r.choice(["float", "float", "int"])
+        tvv = float(tv) if tkind == "float" else tv
+        ovv = float(ov) if okind == "float" else ov
+        if int(tvv) != tv or int(ovv) != ov or (tkind == "int" and okind == "int"):
+            continue                       # not exactly representable (or nothing float about it)
+        tdoc = metadata.delegating_doc("root", tvv, {"root": metadata.rule([pub[1], pub[2]], 1), "key_mgr": metadata.rule([pub[3]], 1)}, r)
+        ndoc = metadata.delegating_doc("root", ovv, {"root": metadata.rule([pub[1], pub[3]], 1), "key_mgr": metadata.rule([pub[3]], 1)}, r)
+        Pb = twin_canon(ndoc)
+        sigs = {}
+        for k in (1, 2, 3):
+            h = r.choice(gamma.HEADERS)
+            sigs[pub[k]] = {"other_headers": h.hex(), "signature": keys.sign(k, crypto.gpg_digest(Pb, h)).hex()}
+        trusted, offered = {"signatures": {}, "signed": tdoc}, {"signatures": sigs, "signed": ndoc}
+        out, exc, _ = lib.call(fn, copy.deepcopy(trusted), copy.deepcopy(offered))
+        run.evaluations += 1
+        ev = alpha_call(trusted, offered, out, numeric=True)
+        if ev:
+            traces.append({"id": len(traces) + 1, "events": [ev]})
+            conc[len(traces)] = [{"trusted": trusted, "offered": offered, "note": f"trusted version {tvv!r}, offered version {ovv!r} (numerically {delta:+d})",
+                                  "observed": out, "exc": exc}]
+    judge(run, traces, conc, lambda o: o["observed"] == "accept" and "accept" not in o["allowed"] and owner(o), "float-version-pair")
+    run.extra["float_version_pairs"] = len(traces)
